@@ -96,7 +96,7 @@ func genACSList(t *rapid.T, sp int, minLen, maxLen int, bindings []string) []wor
 		out = append(out, world.ACSSpec{
 			Binding:   pick(t, "acsbinding", bindings),
 			Location:  loc,
-			Index:     rapid.SampledFrom([]string{"0", "1", "2", "7", "65535"}).Draw(t, "acsindex"),
+			Index:     rapid.SampledFrom([]string{"0", "1", "2", "7", "65535", "10", "12", "100", "02"}).Draw(t, "acsindex"),
 			IsDefault: rapid.SampledFrom([]string{A, A, "true", "false", "1", "0"}).Draw(t, "acsdefault"),
 		})
 	}
